@@ -1,20 +1,18 @@
 import Pyrealb.Props.C19
 open Pyrealb.C19
-#print axioms add_refines_partial
-#print axioms add_refines_refuted
+#print axioms unshared_invariant_holds
+#print axioms add_refines_holds
 #print axioms update_refines_holds
 #print axioms remove_refines_holds
 #print axioms get_after_add_holds
-#print axioms other_entries_untouched_partial
-#print axioms other_entries_untouched_refuted
-#print axioms other_lexicon_untouched_partial
-#print axioms other_lexicon_untouched_refuted
+#print axioms other_entries_untouched_holds
+#print axioms other_lexicon_untouched_holds
 #print axioms bad_lang_and_load_frame_holds
 #print axioms lang_default_is_current_holds
 #print axioms rules_never_change_holds
-#print axioms history_refines_partial
-#print axioms history_refines_refuted
+#print axioms history_refines_holds
 #print axioms new_terminal_uses_new_entry_partial
 #print axioms new_terminal_uses_new_entry_refuted
 #print axioms removed_is_unknown_partial
 #print axioms removed_is_unknown_refuted
+#print axioms terminal_lookup_ignores_current_holds
